@@ -12,7 +12,7 @@ EXTENDS Term, TraceLib
 VARIABLES l, cs, st
 vars == <<l, cs, st>>
 
-NoCase == [emu |-> "none", resized |-> FALSE, dead |-> FALSE, modelled |-> FALSE, nl |-> 0]
+NoCase == [emu |-> "none", resized |-> FALSE, dead |-> FALSE, modelled |-> FALSE, nl |-> 0, mz |-> FALSE, prevc |-> 0]
 Init == l = 1 /\ cs = NoCase /\ st = InitSt(1, 1, TRUE, 0, FALSE) /\ InitRegs
 
 FixedGrid(emu) == emu = "viewdata" \/ emu = "mode7"
@@ -36,7 +36,7 @@ Next ==
   /\ LET e == Rec[l] IN
      CASE e.ev = "reset" ->
             /\ Bump(4)
-            /\ cs' = [emu |-> e.emu, resized |-> FALSE, dead |-> FALSE, modelled |-> Modelled(e.emu) /\ (~Has(e, "model") \/ e.model = 1), nl |-> IF Has(e, "nl") THEN e.nl ELSE 0]
+            /\ cs' = [emu |-> e.emu, resized |-> FALSE, dead |-> FALSE, modelled |-> Modelled(e.emu) /\ (~Has(e, "model") \/ e.model = 1), nl |-> IF Has(e, "nl") THEN e.nl ELSE 0, mz |-> FALSE, prevc |-> 0]
             /\ st' = InitStE(e.emu, e.w, e.h, e.alloc = 1, IF e.emu = "ansi" THEN e.music ELSE 0, e.emu = "ansi" /\ e.bs = 1)
        [] e.ev = "ch" ->
             /\ Bump(3)
@@ -53,11 +53,15 @@ Next ==
                \* one character grows the row table by at most a screenful plus one macro expansion (C03: memory is bounded by
                \* the input length and the screen, not by numbers in the input)
                /\ Check(~Has(e, "nl") \/ e.nl - cs.nl <= e.th + 33000, "C03", "Growth", l, [emu |-> cs.emu, c |-> e.c, nl |-> IF Has(e, "nl") THEN e.nl ELSE 0, before |-> cs.nl])
+               \* ... and over a whole input without macro invocations the row table is bounded by a polynomial in the number of
+               \* characters and the screen height: a screenful (REP, wrapped prints) or one Avatar repeat (255 cells) per character
+               /\ Check(~Has(e, "nl") \/ cs.mz \/ (e.c = 122 /\ cs.prevc = 42) \/ e.nl <= e.th + (e.i + 1) * (e.th + 256), "C03", "GrowthTotal", l,
+                        [emu |-> cs.emu, c |-> e.c, i |-> e.i, nl |-> IF Has(e, "nl") THEN e.nl ELSE 0, th |-> e.th])
                \* ---- model layer ------------------------------------------------
                /\ IF cs.modelled /\ e.r # "panic"
                   THEN WithExp(Step(st, e.c), e)
                   ELSE st' = st
-               /\ cs' = [cs EXCEPT !.resized = resizedNow, !.dead = (e.r = "panic"), !.nl = IF Has(e, "nl") THEN e.nl ELSE cs.nl]
+               /\ cs' = [cs EXCEPT !.resized = resizedNow, !.dead = (e.r = "panic"), !.nl = IF Has(e, "nl") THEN e.nl ELSE cs.nl, !.mz = cs.mz \/ (e.c = 122 /\ cs.prevc = 42), !.prevc = e.c]
        [] e.ev = "crash" ->
             /\ Bump(8)
             /\ Check(e.kind # "abort", "C01", "Abort", l, [emu |-> e.emu, msg |-> e.msg])
